@@ -98,7 +98,7 @@ pub const OUT_IDS: [&str; 12] = ["-1", "1.5", "1e2", "18446744073709551616", "tr
 pub fn method_names() -> Vec<&'static str> {
 	vec![
 		"echo_sync", "echo_async", "echo_blocking", "typed_sync", "typed_async", "typed_blocking", "fail_sync", "fail_async", "fail_blocking",
-		"big_sync", "big_async", "big_blocking", "blocking_panic", "unser_sync", "unser_async", "unser_blocking",
+		"big_sync", "big_async", "big_blocking", "blocking_panic", "unser_sync", "unser_async", "unser_blocking", "ext_sync", "ext_async", "ext_blocking",
 	]
 }
 
